@@ -402,8 +402,17 @@ def _helper_inlinable(h):
     if len(rets) > 1:
         return False
     if rets and rets[0] is not body[-1]:
-        return False
+        return _try_wrapped_return(body) is rets[0]
     return True
+
+
+def _try_wrapped_return(body):
+    """`try: ...; return e` + handlers that all end by raising, as the last statement: the one Return"""
+    t = body[-1] if body else None
+    if isinstance(t, ast.Try) and not t.orelse and not t.finalbody and t.body and isinstance(t.body[-1], ast.Return) \
+            and t.handlers and all(h_.body and isinstance(h_.body[-1], ast.Raise) for h_ in t.handlers):
+        return t.body[-1]
+    return None
 
 
 def _helper_inlinable_tail(h):
@@ -512,6 +521,13 @@ def inlined(index, fn, depth=2, only_private=True, keep=()):
         if body and isinstance(body[-1], ast.Return):
             result = body[-1].value
             body = body[:-1]
+        elif _try_wrapped_return(body) is not None:
+            counter[0] += 1
+            tmp = f"_ret__{counter[0]}"
+            r_ = body[-1].body[-1]
+            body[-1].body[-1] = ast.copy_location(
+                ast.Assign(targets=[ast.Name(id=tmp, ctx=ast.Store())], value=r_.value, lineno=r_.lineno, col_offset=0), r_)
+            result = ast.Name(id=tmp, ctx=ast.Load())
         hfn = h
         if level < depth:
             body = block(body, hfn, level + 1, tail)
